@@ -24,14 +24,18 @@ static std::string tmp_path(const char * tag) { return g_dir + "/" + tag + "." +
 
 // write a sequence through the File API; ownership of clones passes to the library. returns error text or ""
 static std::string write_file(const std::string & path, const sg::Seq & s, const sg::Config & c, File * keep = nullptr,
-                              void (*prep)(File &, void *) = nullptr, void * arg = nullptr) {
+                              void (*prep)(File &, void *) = nullptr, void * arg = nullptr, int pause_ms = 0) {
     File local; File & f = keep ? *keep : local;
     f.compressionLevel = c.level; f.writeRestorePoints = c.trailer; f.setDefaultLogContainerSize(c.C);
     if (c.tiny_limits) f.verifSetLimits(c.Q, c.B);
     if (prep) prep(f, arg);
     f.open(path.c_str(), std::ios_base::out);
     if (!f.is_open()) return "open(out) failed";
-    for (size_t i = 0; i < s.objs.size(); i++) f.write(s.cis[i]->clone(s.objs[i]));
+    for (size_t i = 0; i < s.objs.size(); i++) {
+        f.write(s.cis[i]->clone(s.objs[i]));
+        if (pause_ms && i + 1 == s.objs.size() / 2) { struct timespec ts = {0, pause_ms * 1000000L / 2}; nanosleep(&ts, nullptr); }
+    }
+    if (pause_ms) { struct timespec ts = {0, pause_ms * 1000000L}; nanosleep(&ts, nullptr); }     // the application idles before close()
     f.close();
     if (f.is_open()) return "still open after close";
     return "";
@@ -289,7 +293,9 @@ static int run_ids(long from, long to, const char * listfile) {
         wd::arm(60, "ids-session"); wd::note(files[i].c_str());
         std::ostringstream line; line << "@ids " << i;
         try {
-            File f; f.open(files[i].c_str(), std::ios_base::in);
+            File f;
+            if (const char * lim = getenv("VERIF_IDS_LIMITS")) { unsigned q = 10; long b = 64; sscanf(lim, "%u,%ld", &q, &b); f.verifSetLimits(q, b); }
+            f.open(files[i].c_str(), std::ios_base::in);
             if (!f.is_open()) line << " !notopen";
             else {
                 long k = 0;
@@ -498,13 +504,17 @@ static int run_c14w(uint64_t seed, long from, long to, const char * dir, const c
         hc::begin_case(std::to_string(idx));
         wd::arm(120, "c14-session");
         sg::Seq s; c14_sequence(s, seed, idx); sg::Config c = c14_config(seed, idx);
+        if (idx % 3 == 0) {     // the object stream ends exactly on a container boundary (1, 2 or 3 full containers)
+            size_t L = 0; for (size_t i = 0; i < s.objs.size(); i++) L += sg::encode(s.objs[i], s.cis[i]).size();
+            size_t k = 1 + (size_t)(idx / 3) % 3; if (L >= 16 * k && L % k == 0) c.C = (uint32_t)(L / k); else if (L >= 16) c.C = (uint32_t)L;
+        }
         std::string path = std::string(dir) + "/" + std::to_string(idx) + "." + tag + ".blf";
         std::string e = write_file(path, s, c);
         if (!e.empty()) { hc::viol("write-session:" + e, c.str()); continue; }
         if (repeat) {   // same sequence again in this process after unrelated allocation churn
             twin::Bytes first = twin::load(path);
             { std::vector<std::vector<char>> churn; Rng r(idx); for (int i = 0; i < 200; i++) churn.push_back(std::vector<char>(1 + r.below(5000), (char)r.next())); }
-            std::string p2 = path + ".again"; write_file(p2, s, c);
+            std::string p2 = path + ".again"; write_file(p2, s, c, nullptr, nullptr, nullptr, 30);      // same objects, different pacing
             twin::Bytes second = twin::load(p2); unlink(p2.c_str());
             if (first != second) { size_t off = 0; while (off < first.size() && off < second.size() && first[off] == second[off]) off++; hc::viol("differs-on-repetition-in-process", "offset " + std::to_string(off) + " [" + c.str() + "] case=" + std::to_string(idx) + " " + sg::describe_seq(s, 4)); }
             else repeats_equal++;
